@@ -20,15 +20,15 @@ func tokenizerFns(e *Engine, names ...string) []*ssa.Function {
 }
 
 func runC04(e *Engine, tier Tier) *PropRun {
-	rs := e.verifyAll(tokenizerFns(e, "Tokenize", "TokenizeContext"), &VCOpts{InlineDepth: 1, CheckTags: map[string]bool{"C04": true}}, nil)
+	rs := e.verifyAll(tokenizerFns(e, "Tokenize", "TokenizeContext", "readPunctuation"), &VCOpts{InlineDepth: 1, CheckTags: map[string]bool{"C04": true}}, nil)
 	return &PropRun{
 		Results: rs, FUC: fucList(rs),
 		Claim: func(o *Obligation) bool {
 			return o.Kind == "post" || o.Kind == "inv-init" || o.Kind == "inv-pres"
 		},
 		Level: "other",
-		Explanation: "One clause of the property, proved for every input: a successful Tokenize / TokenizeContext returns a non-empty stream whose last token is the end-of-input marker and none of whose earlier tokens is (quantified postcondition; quantified invariant of the main loop over the token slice, with the append semantics of the slice model).",
-		NotCovered: []string{"kind and decoded value of each lexical element (maximal munch, number grammar, escape decoding): functional reader contracts against a lexical spec are not built", "comments captured with their exact text", "layout independence (separators, keyword case)", "compound-keyword look-ahead across whitespace vs comments"},
+		Explanation: "Two clauses of the property, proved for every input. (1) Faithful reading of operators and punctuation: every token readPunctuation builds itself (no word, not a string literal, no comment skipped on the way, not the content of a dollar-quoted string, not a named placeholder) has as its value exactly the bytes the cursor moved over - one obligation per return site (about 175), so a branch that consumes more or fewer bytes than the text it reports fails its obligation. (2) A successful Tokenize / TokenizeContext returns a non-empty stream whose last token is the end-of-input marker and none of whose earlier tokens is (quantified postcondition; quantified invariant of the main loop over the token slice, with the append semantics of the slice model).",
+		NotCovered: []string{"verbatim reading of identifiers, numbers, string literals and named placeholders (their values are decoded or assembled by other readers)", "kind and decoded value of each lexical element (maximal munch, number grammar, escape decoding): functional reader contracts against a lexical spec are not built", "comments captured with their exact text", "layout independence (separators, keyword case)", "compound-keyword look-ahead across whitespace vs comments"},
 	}
 }
 
